@@ -166,7 +166,9 @@ impl<'t, 'a> SynGen<'t, 'a> {
 
     /// operand list of a binary operator (also `let`/`rock` value lists)
     pub fn list(&mut self, c: Ctx, next: fn(&mut Self, Ctx) -> Expr) -> Vec<Expr> {
-        let n = if c.no_lists || c.depth == 0 { 1 } else { 1 + self.t.weighted(&[80, 14, 6]) };
+        let n = if c.no_lists || c.depth == 0 { 1 } else { 1 + self.t.weighted(&[80, 14, 5, 1]) };
+        // now and then a wide list: beyond the interpreter's inline capacities (8) and small-size fast paths
+        let n = if n == 4 { 5 + self.t.pick(9) } else { n };
         if n == 1 {
             return vec![next(self, c)];
         }
@@ -246,7 +248,8 @@ impl<'t, 'a> SynGen<'t, 'a> {
         if base.swallows_at() {
             return base;
         }
-        let n = if c.depth == 0 { 0 } else { self.t.weighted(&[80, 15, 5]) };
+        let n = if c.depth == 0 { 0 } else { self.t.weighted(&[80, 15, 4, 1]) };
+        let n = if n == 3 { 3 + self.t.pick(8) } else { n };
         let mut p = base;
         for i in 0..n {
             let last = i + 1 == n;
@@ -281,7 +284,8 @@ impl<'t, 'a> SynGen<'t, 'a> {
     }
 
     pub fn args(&mut self, c: Ctx) -> Vec<Expr> {
-        let n = 1 + self.t.weighted(&[60, 30, 10]);
+        let n = 1 + self.t.weighted(&[60, 29, 9, 2]);
+        let n = if n == 4 { 5 + self.t.pick(9) } else { n };
         (0..n)
             .map(|i| {
                 let last = i + 1 == n;
@@ -461,7 +465,8 @@ impl<'t, 'a> SynGen<'t, 'a> {
             _ => {
                 if depth > 0 && self.t.chance(1, 2) {
                     let name = self.fname();
-                    let np = 1 + self.t.weighted(&[50, 30, 15, 5]);
+                    let np = 1 + self.t.weighted(&[50, 30, 14, 5, 1]);
+                    let np = if np == 5 { 8 + self.t.pick(5) } else { np };
                     let params = (0..np).map(|_| self.name()).collect();
                     let body = self.block(depth - 1, true);
                     Stmt::Function { name, params, body }
